@@ -151,6 +151,12 @@ def call(idx, op, args, pair):
             return {"bytes": hashlib.md5(data).hexdigest(), "ok": data == FILES[args[0]]}
         if op == "FsFind":
             return {"keys": sorted(p.lstrip("/") for p in fs.find(path))}
+        if op == "HashDiffChanged":
+            # against a copy of the same tree that differs two and three levels below the directory object `data` only;
+            # unchanged entries not asked for (so the diff may skip what it KNOWS to be unchanged - a directory hash)
+            other = pair.changed_copy()
+            ch = sorted([c.typ, "/".join(c.key)] for c in diff(idx, other, hash_only=True, with_unchanged=False))
+            return {"keys": sorted({c[1] for c in ch}), "changes": ch}
         if op == "HashDiff":
             other = pair.other_index()
             ch = sorted([c.typ, "/".join(c.key)] for c in diff(idx, other, hash_only=True, with_unchanged=True))
@@ -193,7 +199,19 @@ def run_trace(case):
             o[("data", "bar")] = DataIndexEntry(key=("data", "bar"), meta=Meta(md5=MD5["data/bar"]), hash_info=HashInfo("md5", MD5["data/bar"]))
             return o
 
+        def changed_copy():
+            o = DataIndex()
+            for k in FILES:
+                h = MD5[k] if k != "data/sub/deep/qux" else "3" * 32
+                o[T(k)] = DataIndexEntry(key=T(k), meta=Meta(), hash_info=HashInfo("md5", h))
+            o[T("data/sub/new")] = DataIndexEntry(key=T("data/sub/new"), meta=Meta(), hash_info=HashInfo("md5", "4" * 32))
+            for d in DIRS:
+                hi = HashInfo("md5", "2" * 32 + ".dir") if d == "data" else (HashInfo("md5", pair.dirhash[d]) if d in LAZY else None)
+                o[T(d)] = DataIndexEntry(key=T(d), meta=Meta(isdir=True), hash_info=hi, loaded=True)
+            return o
+
         pair.other_index = other_index
+        pair.changed_copy = changed_copy
         events = []
         # count how often a directory object is read from storage (the repeated call must not read any)
         from dvc_data.hashfile.tree import Tree
@@ -264,7 +282,7 @@ def directed_cases():
     singles += [(op, [d]) for op in ("Ls", "FsLs", "FsFind") for d in dirs]
     singles += [("Iter", [d, sh]) for d in dirs for sh in (False, True)]
     singles += [("ViewIter", [f]) for f in FILTERS] + [("ViewLs", [f, d]) for f in FILTERS for d in dirs]
-    singles += [("FsCat", [k]) for k in FILES] + [("HashDiff", [])]
+    singles += [("FsCat", [k]) for k in FILES] + [("HashDiff", []), ("HashDiffChanged", [])]
     for backend in ("memory", "sqlite", "sqlite-reopened"):
         for op, args in singles:
             cases.append({"id": n, "ops": [{"op": op, "args": args}, {"op": "Iter", "args": ["", False]}], "backend": backend})
